@@ -57,7 +57,7 @@ fn fold_steps(b: &syn::Block, fields: &[String]) -> (Vec<FoldStep>, Option<usize
                 // a.into_iter().zip(b.into_iter())
                 let mut zipped = vec![];
                 for f in fields {
-                    if it.starts_with(&format!("{}.into_iter().zip(", f)) || it.contains(&format!(".zip({}.into_iter())", f)) {
+                    if it.starts_with(&format!("{}.into_iter().zip(", f)) || it.contains(&format!(".zip({}.into_iter())", f)) || it.contains(&format!(".zip({})", f)) {
                         zipped.push(f.clone());
                     }
                 }
